@@ -46,6 +46,7 @@ type Engine struct {
 	instCount   map[string]int
 	dry         int // >0: discard everything (loop modified-set discovery)
 	noOblig     int // >0: evaluate without emitting obligations (spec evaluation)
+	nGlobals    int
 	inlineTerms int // >0: do not name intermediate values (inside quantifier bodies)
 	boundVars   []T
 
